@@ -27,6 +27,16 @@ type ValState struct {
 	// x/staking removes a jailed validator from the power index at once, but its status, its last power and the
 	// last total power are only updated by the staking EndBlocker of that block (which runs before mhub2's).
 	Jailed bool `json:"jailed,omitempty"`
+	// WasJailed: jailed in an earlier block and not unjailed since (x/staking keeps the jailed flag until MsgUnjail; the
+	// validator is then Unbonding, not Bonded)
+	WasJailed bool `json:"was_jailed,omitempty"`
+	// Pending change of this block (a delegation / undelegation / (un)bonding transaction): x/staking updates the
+	// validator's tokens at once, but its LAST power, the last total power and its status only in the staking
+	// EndBlocker. HasNext marks a pending change, NextPower the power it leads to, NextBonded 0 = status unchanged,
+	// 1 = enters the bonded set, 2 = leaves it.
+	HasNext    bool  `json:"has_next,omitempty"`
+	NextPower  int64 `json:"next_power,omitempty"`
+	NextBonded int8  `json:"next_bonded,omitempty"`
 	// Removed: the validator record no longer exists (it finished unbonding with no delegation left); the operator
 	// may create the validator again later
 	Removed bool `json:"removed,omitempty"`
@@ -62,11 +72,19 @@ func (s *Staking) mk(v ValState) stakingtypes.Validator {
 	}
 	return stakingtypes.Validator{
 		OperatorAddress: v.Oper,
-		Jailed:          v.Jailed,
+		Jailed:          v.Jailed || v.WasJailed,
 		Status:          st,
-		Tokens:          sdk.NewInt(v.Power).Mul(sdk.DefaultPowerReduction),
-		DelegatorShares: sdk.NewDec(v.Power),
+		Tokens:          sdk.NewInt(curStake(v)).Mul(sdk.DefaultPowerReduction),
+		DelegatorShares: sdk.NewDec(curStake(v)),
 	}
+}
+
+// curStake: the validator's tokens right now (a pending change of this block included).
+func curStake(v ValState) int64 {
+	if v.HasNext {
+		return v.NextPower
+	}
+	return v.Power
 }
 
 func (s *Staking) bonded() []ValState {
@@ -77,8 +95,8 @@ func (s *Staking) bonded() []ValState {
 		}
 	}
 	sort.SliceStable(out, func(i, j int) bool {
-		if out[i].Power != out[j].Power {
-			return out[i].Power > out[j].Power
+		if curStake(out[i]) != curStake(out[j]) {
+			return curStake(out[i]) > curStake(out[j])
 		}
 		return out[i].Oper < out[j].Oper
 	})
@@ -168,8 +186,20 @@ func (s *Staking) Jail(sdk.Context, sdk.ConsAddress)                            
 // (status Unbonding, no last power).
 func (s *Staking) EndBlocker() {
 	for i := range s.Vals {
+		if v := &s.Vals[i]; v.HasNext {
+			v.Power = v.NextPower
+			switch v.NextBonded {
+			case 1:
+				v.Bonded, v.Unbonding, v.WasJailed = true, false, false
+			case 2:
+				v.Bonded = false
+			}
+			v.HasNext, v.NextPower, v.NextBonded = false, 0, 0
+		}
+	}
+	for i := range s.Vals {
 		if s.Vals[i].Jailed {
-			s.Vals[i].Jailed, s.Vals[i].Bonded, s.Vals[i].Unbonding = false, false, true
+			s.Vals[i].Jailed, s.Vals[i].Bonded, s.Vals[i].Unbonding, s.Vals[i].WasJailed = false, false, true, true
 		}
 	}
 }
